@@ -292,7 +292,7 @@ def main(run):
     except subprocess.TimeoutExpired:
         run.inconclusive_case("miri", "miri run exceeded its wall-clock budget")
         run.extra["miri"] = {"status": "timeout"}
-    return run.finish(floor=FLOOR if run.tier == "quick" else {k: v * 20 for k, v in FLOOR.items()})
+    return run.finish(floor=FLOOR if run.tier == "quick" else {k: (v * 20 if k != "typed-envelopes" else 200) for k, v in FLOOR.items()})
 
 
 def typed(run):
